@@ -9,7 +9,9 @@ import DendroModel.Model.C19
 * `concatFromStreams` / `concatFromPaths` — `concatenate_from_streams` / `concatenate_from_paths` over an ABSTRACT
   reader `parse` (and `open`): the code's loop `for stream in streams: char_matrices.append(cls.get_from_stream(…))`
   followed by `cls.concatenate(char_matrices)`; `concatenate_from_paths` opens every path first
-  (`streams = [open(path) for path in paths]`) and then calls `concatenate_from_streams`. -/
+  (`streams = [open(path) for path in paths]`) and then calls `concatenate_from_streams`.
+  The reader is STATELESS here: that all streams are read into one shared `TaxonNamespace`, which may grow while later
+  streams are read, is modelled separately by `concatFromStreamsNS` below. -/
 namespace DendroModel.C19
 
 /-! ## `set(character_indices)`, canonically: ascending without repetition -/
@@ -102,5 +104,85 @@ def concatFromPaths {π σ : Type} (opn : π → Option σ) (parse : σ → Opti
   match openLoop opn [] 0 paths with
   | .error e => .error e
   | .ok streams => concatFromStreams parse streams
+
+end DendroModel.C19
+
+/-! ## histories: the operations that change ONE matrix, as data, and their sequential execution -/
+namespace DendroModel.C19
+
+/-- one mutating call on a matrix; `o` is the other matrix as it is at the time of the call -/
+inductive Op where
+  | add (o : Matrix) | replace (o : Matrix) | update (o : Matrix)
+  | extend (addNew : Bool) (o : Matrix) | extendMatrix (o : Matrix)
+  | remove (taxa : List Taxon) | discard (taxa : List Taxon) | keep (taxa : List Taxon)
+  | fill (v : Cell) (size : Option Nat) (app : Bool) | fillTaxa | pack (v : Cell) (size : Option Nat) (app : Bool)
+  | newSubset (lab : Label) (idx : List Nat)
+  | getItem (t : Taxon) | setItem (t : Taxon) (row : Row) | newSequence (t : Taxon) (row : Row) | delItem (t : Taxon)
+  | clear
+
+/-- a call that raises before touching anything leaves the matrix as it was -/
+def orSelf (m : Matrix) : Except Err Matrix → Matrix
+  | .ok r => r
+  | .error _ => m
+
+/-- the matrix after one call (a refused call changes nothing; `remove_sequences` that raises keeps its partial work) -/
+def step (m : Matrix) : Op → Matrix
+  | .add o => orSelf m (rowOp addSeqs m o)
+  | .replace o => orSelf m (rowOp replaceSeqs m o)
+  | .update o => orSelf m (rowOp updateSeqs m o)
+  | .extend b o => orSelf m (rowOp (extendSeqs b) m o)
+  | .extendMatrix o => orSelf m (rowOp extendMatrix m o)
+  | .remove taxa => { m with rows := (removeSeqs taxa m.rows).1 }
+  | .discard taxa => { m with rows := discardSeqs taxa m.rows }
+  | .keep taxa => { m with rows := keepSeqs taxa m.rows }
+  | .fill v size app => { m with rows := fillRows v size app m.taxa m.rows }
+  | .fillTaxa => { m with rows := fillTaxa m.taxa m.rows }
+  | .pack v size app => { m with rows := packRows v size app m.taxa m.rows }
+  | .newSubset lab idx => orSelf m (newSubset m lab idx)
+  | .getItem t => match getItem m t with
+    | .ok (m', _) => m'
+    | .error _ => m
+  | .setItem t row => orSelf m (setItem m t row)
+  | .newSequence t row => orSelf m (newSequence m t row)
+  | .delItem t => orSelf m (delItem m t)
+  | .clear => clearRows m
+
+/-- a history: the calls one after the other -/
+def run (m : Matrix) (ops : List Op) : Matrix := ops.foldl step m
+
+end DendroModel.C19
+
+/-! ## `concatenate_from_streams` with the SHARED, GROWING namespace -/
+namespace DendroModel.C19
+
+/-- what the reader delivers for one stream -/
+structure Parsed where
+  label : Option Label
+  rows : Rows
+
+/-- reading rows into the shared namespace: a taxon that is not yet a member is appended, in order of appearance -/
+def growTaxa (taxa : List Taxon) (rows : Rows) : List Taxon :=
+  rows.foldl (fun acc kv => if acc.contains kv.1 then acc else acc ++ [kv.1]) taxa
+
+/-- `for stream in streams: char_matrices.append(cls.get_from_stream(stream, taxon_namespace=tns))` -/
+def readLoopNS {σ : Type} (parse : σ → Option Parsed) :
+    List Taxon → List Parsed → Nat → List σ → Except SErr (List Taxon × List Parsed)
+  | taxa, acc, _, [] => .ok (taxa, acc)
+  | taxa, acc, i, s :: ss =>
+    match parse s with
+    | none => .error (.parseError i)
+    | some p => readLoopNS parse (growTaxa taxa p.rows) (acc ++ [p]) (i + 1) ss
+
+/-- every matrix read refers to the ONE namespace object, hence to its final member list -/
+def asMatrix (ns : Nat) (taxa : List Taxon) (p : Parsed) : Matrix :=
+  { ns := ns, taxa := taxa, label := p.label, rows := p.rows, subs := [] }
+
+def concatFromStreamsNS {σ : Type} (ns : Nat) (parse : σ → Option Parsed) (streams : List σ) : Except SErr Matrix :=
+  match readLoopNS parse [] [] 0 streams with
+  | .error e => .error e
+  | .ok (taxa, ps) =>
+    match concatenate (ps.map (asMatrix ns taxa)) with
+    | .ok r => .ok r
+    | .error e => .error (.concat e)
 
 end DendroModel.C19
